@@ -328,6 +328,154 @@ def gen_case(rng, k):
     return {"text": "\n".join(L) + "\n", "meta": meta}
 
 
+# ----------------------------------------------------------------------------- redox problems
+REDOX_POOL = {"CH2O": "CH2O", "N2(g)": "N2", "O2(g)": "O2", "H2(g)": "H2", "H2S(g)": "H2S", "CH4(g)": "CH4", "NH3(g)": "NH3"}
+CH2O_DEF = "PHASES\nCH2O\n    CH2O + H2O = CO2 + 4H+ + 4e-\n    log_k 0.0\n"
+
+
+def gen_redox_case(rng, k):
+    """Forward-simulated redox evolutions (an exact model exists: the REACTION amounts): denitrification with N2 degassing, aerobic
+    respiration with O2(g) uptake, sulfate reduction with H2S loss, H2(g) / CH4(g) / NH3(g) uptake.  The candidate phases include the
+    diatomic gases N2(g), O2(g), H2(g) (two atoms per master species) with non-zero transfers; N, S, C, O(0), H(0) are balanced per
+    valence state.  Database phreeqc.dat or llnl.dat."""
+    db = "llnl.dat" if rng.random() < 0.25 else "phreeqc.dat"
+    kind = rng.choice(["denit", "denit", "aerobic", "aerobic", "sulfred", "h2", "ch4", "nh3"])
+    comp = {"Ca": rng.uniform(0.5, 2), "Mg": rng.uniform(0.1, 1), "K": rng.uniform(0.02, 0.3), "C(4)": rng.uniform(1, 4),
+            "S(6)": rng.uniform(0.2, 1.5)}
+    redox_lines = []
+    react = []
+    amounts = {}
+    ph = rng.uniform(6.8, 7.8)
+    pe = 4.0
+    if kind == "denit":
+        n5 = rng.uniform(0.2, 1.0)
+        o0 = rng.choice([0.0, rng.uniform(0.02, 0.2)])
+        comp["N(5)"] = n5
+        if o0:
+            comp["O(0)"] = o0
+        pe = 12.0
+        a = rng.uniform(0.3, 0.9) * (1.25 * n5 + o0 * 1.0)          # CH2O: 4 e- each; NO3- -> 1/2 N2 takes 5 e-, O2 takes 4 e-
+        n2_made = max(0.0, (4 * a - 4 * o0) / 10.0)                   # mmol N2 if O2 is used first
+        b = rng.uniform(0.3, 0.9) * n2_made
+        amounts = {"CH2O": a}
+        if b > 1e-4:
+            amounts["N2(g)"] = -b
+    elif kind == "aerobic":
+        o0 = rng.uniform(0.15, 0.3)
+        comp["O(0)"] = o0
+        if rng.random() < 0.5:
+            comp["N(5)"] = rng.uniform(0.05, 0.3)
+        pe = 12.0
+        a = rng.uniform(0.1, 0.8) * o0
+        amounts = {"CH2O": a, "O2(g)": rng.uniform(0.2, 1.0) * rng.choice([a, 0.1])}
+    elif kind == "sulfred":
+        pe = -2.0
+        a = rng.uniform(0.2, 0.8) * 2 * comp["S(6)"]
+        amounts = {"CH2O": a}
+        if rng.random() < 0.7:
+            amounts["H2S(g)"] = -rng.uniform(0.2, 0.8) * a / 2
+    elif kind == "h2":
+        pe = -2.0
+        amounts = {"H2(g)": rng.uniform(0.1, 0.8) * 4 * comp["S(6)"] * 0.5}
+        if rng.random() < 0.5:
+            amounts["H2S(g)"] = -rng.uniform(0.1, 0.5) * amounts["H2(g)"] / 4
+    elif kind == "ch4":
+        pe = -2.0
+        amounts = {"CH4(g)": rng.uniform(0.05, 0.5)}
+    else:
+        o0 = rng.uniform(0.15, 0.3)
+        comp["O(0)"] = o0
+        pe = 12.0
+        amounts = {"NH3(g)": rng.uniform(0.02, 0.1), "O2(g)": rng.uniform(0.0, 0.2)}
+        if amounts["O2(g)"] < 0.01:
+            del amounts["O2(g)"]
+    if rng.random() < 0.6:
+        amounts["Calcite"] = rng.choice([1, 1, -1]) * rng.uniform(0.05, 0.4)
+    if rng.random() < 0.3:
+        amounts["CO2(g)"] = rng.uniform(-0.2, 0.3)
+    if rng.random() < 0.25:
+        amounts["Gypsum"] = rng.uniform(0.05, 0.4)
+    cat = 2 * comp["Ca"] + 2 * comp["Mg"] + comp["K"]
+    an = 2 * comp["S(6)"] + comp["C(4)"] + comp.get("N(5)", 0)
+    comp["Cl"] = max(0.05, cat - an + rng.uniform(0.2, 3))
+    L = ["TITLE C18 redox case %d (%s, %s)" % (k, kind, db)]
+    if "CH2O" in amounts or rng.random() < 0.3:
+        L.append(CH2O_DEF.rstrip())
+    L += ["SOLUTION 1", "  units mmol/kgw", "  temp %s" % fmt(rng.choice([10, 25, 25])), "  pH %s" % fmt(ph), "  pe %s" % fmt(pe)]
+    for e, v in comp.items():
+        L.append("  %s %s" % (e, fmt(v)))
+    L.append("  Na 1 charge")
+    L.append("END")
+    L.append("USE solution 1")
+    L.append("REACTION 1")
+    formula_of = dict(POOL, **REDOX_POOL)
+    for p_, a in amounts.items():
+        L.append("  %s %s" % (formula_of[p_].replace(":", ":") if p_ in REDOX_POOL else p_, fmt(a)))
+    unc = rng.choice([0.005, 0.01, 0.02, 0.05])
+    pert = None
+    if rng.random() < 0.4:
+        pert = (rng.choice(["NaCl", "KCl", "MgCl2"]), unc * 0.3 * rng.uniform(0.2, 1.0))
+        L.append("  %s %s" % (pert[0], fmt(pert[1])))
+    L.append("  1 mmol")
+    L.append("SAVE solution 2")
+    L.append("END")
+    cand = list(amounts)
+    if "CH2O" not in "".join(L[:3]) and "CH2O" in cand:
+        pass
+    have_ch2o = CH2O_DEF.rstrip() in L
+    others = [p_ for p_ in (list(REDOX_POOL) + ["Calcite", "CO2(g)", "Gypsum", "Halite", "Dolomite", "Sylvite"]) if p_ not in cand and (p_ != "CH2O" or have_ch2o)]
+    rng.shuffle(others)
+    drop_true = rng.random() < 0.05 and len(cand) > 1
+    if drop_true:
+        cand = cand[1:]
+    cand += others[: rng.randint(0, 4)]
+    if "Gypsum" in cand and "Anhydrite" in cand:
+        cand.remove("Anhydrite")
+    rng.shuffle(cand)
+    cons = {}
+    for p_ in cand:
+        r_ = rng.random()
+        a = amounts.get(p_)
+        if r_ < 0.4:
+            cons[p_] = ""
+        elif a is None:
+            cons[p_] = rng.choice(["dis", "pre", ""])
+        else:
+            cons[p_] = "dis" if a > 0 else "pre"
+    minimal = rng.random() < 0.5
+    rangeopt = rng.random() < 0.6
+    present = set(["Na", "K", "Ca", "Mg", "S", "C", "Cl"])
+    if "N(5)" in comp or any(p_ in ("N2(g)", "NH3(g)") for p_ in cand):
+        present.add("N")
+    balances = {e: [] for e in sorted(present)}
+    if rng.random() < 0.3:
+        el = rng.choice(sorted(present & set(["N", "S", "C"])))
+        balances[el] = [float("%.3g" % (unc * rng.choice([0.5, 2.0])))]
+    L.append("SELECTED_OUTPUT 1")
+    L.append("  -reset false")
+    L.append("  -inverse_modeling true")
+    if rng.random() < 0.5:
+        L.append("  -high_precision true")
+    L.append("INVERSE_MODELING 1")
+    L.append("  -solutions 1 2")
+    L.append("  -uncertainty %s" % fmt(unc))
+    if rangeopt:
+        L.append("  -range")
+    if minimal:
+        L.append("  -minimal")
+    L.append("  -phases")
+    for p_ in cand:
+        L.append("    %s  %s" % (p_, cons[p_]))
+    L.append("  -balances")
+    for e, vals in balances.items():
+        L.append("    %s %s" % (e, " ".join("%g" % v for v in vals)))
+    L.append("END")
+    meta = {"n_init": 1, "cand": cand, "cons": cons, "force": [], "amounts": amounts, "mix": None, "uncs": [unc], "balances": balances,
+            "ph_unc": None, "minimal": minimal, "range": rangeopt, "tol": None, "mp": False, "mineral_water": None, "pert": pert,
+            "pert_kind": "inside" if pert else "none", "tight": None, "drop_true": drop_true, "hp": False, "redox": kind, "db": db}
+    return {"text": "\n".join(L) + "\n", "meta": meta, "db": os.path.join(vlib.DB, db)}
+
+
 # ----------------------------------------------------------------------------- running the implementation
 def run_jobs(jobs, timeout_each=20, workers=6):
     """jobs: [{id, text, oracle(bool)}] -> {id: result}.  Every process runs in a scratch directory."""
@@ -459,6 +607,60 @@ def expected_unc(decl, name, s, nsol):
     return pick(decl["uncs"])
 
 
+
+OX_REF_H, OX_REF_O = Fr(1), Fr(-2)
+
+
+def species_atoms(name):
+    """atoms of a master species written as in the database: CO3-2, H4SiO4, Fe+3, O2, e-"""
+    sp = re.sub(r"[+-]\d*(\.\d+)?$", "", name or "")
+    if not sp or sp == "e":
+        return {}
+    return parse_formula(sp)
+
+
+def row_info(p):
+    """per mole-balance row j (valence state): element symbol, composition / charge / alkalinity of its master species (database data
+    as reported by the engine's master table, not by inverse.cpp), atoms of the element per master species, oxidation number"""
+    info = {}
+    for j, e in enumerate(p["elts"]):
+        if e["eminus"] or e["name"] == "Alkalinity":
+            continue
+        el = base_elem(e["name"])
+        at = species_atoms(e.get("species"))
+        if el not in at:
+            raise Skip("master species %s of %s does not contain the element" % (e.get("species"), e["name"]))
+        z = H(e["z"])
+        others = sum((OX_REF_H if x == "H" else OX_REF_O if x == "O" else None) * n_ for x, n_ in at.items() if x != el and x in ("H", "O"))
+        if any(x not in ("H", "O", el) for x in at):
+            raise Skip("master species %s contains a second element" % e.get("species"))
+        info[j] = {"elem": el, "atoms": at[el], "H": at.get("H", Fr(0)) if el != "H" else Fr(0), "O": at.get("O", Fr(0)) if el != "O" else Fr(0),
+                   "z": z, "alk": H(e["alk"]), "ox": (z - others) / at[el], "row": e["row"], "name": e["name"]}
+    return info
+
+
+def balanced_reaction(formula, a, info, alk_e):
+    """formula: {element: atoms} of one mole of phase (empty for a redox reaction); a: {row j: atoms of the row's element put on that row}.
+    The rest of the dissolution reaction follows from O, H and charge balance:
+        formula = sum_j n_j species_j + nu_w H2O + nu_h H+ + nu_e e-          (n_j = a_j / atoms of the element per master species)
+    -> (nu_w, nu_h, nu_e, alkalinity of the products)"""
+    n = {j: a_j / info[j]["atoms"] for j, a_j in a.items() if a_j != 0}
+    o_used = sum(n_ * (info[j]["O"] + (info[j]["atoms"] if info[j]["elem"] == "O" else 0)) for j, n_ in n.items())
+    h_used = sum(n_ * (info[j]["H"] + (info[j]["atoms"] if info[j]["elem"] == "H" else 0)) for j, n_ in n.items())
+    nu_w = formula.get("O", Fr(0)) - o_used
+    nu_h = formula.get("H", Fr(0)) - h_used - 2 * nu_w
+    nu_e = sum(n_ * info[j]["z"] for j, n_ in n.items()) + nu_h
+    alk = sum(n_ * info[j]["alk"] for j, n_ in n.items()) - nu_h + nu_e * alk_e
+    return nu_w, nu_h, nu_e, alk
+
+
+def engine_matrix(pb_or_p):
+    rows = {}
+    for rr, cc, v in pb_or_p["array"]:
+        rows.setdefault(rr, {})[cc] = H(v)
+    return rows
+
+
 def build_problem(r, meta=None, text=None):
     """-> dict with everything that does not depend on the individual model."""
     p = r["problem"]
@@ -489,7 +691,25 @@ def build_problem(r, meta=None, text=None):
         if ph["name"] in POOL and POOL[ph["name"]] != f:
             raise Skip("formula of %s reported as %s" % (ph["name"], f))
         comp.append(parse_formula(f))
-    zalk = {e["name"]: (H(e["z"]), H(e["alk"])) for e in p["elts"]}
+    A = engine_matrix(p)
+    info = row_info(p)
+    erow_ = [e["row"] for e in p["elts"] if e["eminus"]]
+    alk_e = [H(e["alk"]) for e in p["elts"] if e["eminus"]]
+    alk_e = alk_e[0] if alk_e else Fr(1)
+    # the dissolution reaction of every phase implied by the valence rows its atoms are put on (the engine may choose the valence
+    # state; that the choice is a BALANCED reaction of the formula is checked in setup_violations): water, H+, e-, alkalinity
+    colspec = []
+    for i, cp in enumerate(comp):
+        a = {j: A.get(inf["row"], {}).get(lay["col_phases"] + i, Fr(0)) for j, inf in info.items()}
+        colspec.append(balanced_reaction(cp, a, info, alk_e))
+    redox_cols = []
+    for c_ in range(lay["col_redox"], lay["col_epsilon"]):
+        a = {j: A.get(inf["row"], {}).get(c_, Fr(0)) for j, inf in info.items()}
+        nu_w, nu_h, nu_e, alk_r = balanced_reaction({}, a, info, alk_e)
+        per_el = {}
+        for j, inf in info.items():
+            per_el[inf["elem"]] = per_el.get(inf["elem"], Fr(0)) + a[j]
+        redox_cols.append({"water": nu_w if p["mineral_water"] else Fr(0), "Alkalinity": alk_r, "elem": per_el})
     rows = []
     for b in order:
         if b in SKIP_ELEMS:
@@ -510,50 +730,41 @@ def build_problem(r, meta=None, text=None):
             bound = [(u * abs(T[s])) if u > 0 else -u for s, u in enumerate(U)]
             states.append({"j": j, "name": e["name"], "T": T, "bound": bound, "unc": U, "unc_engine": Ue})
         if b == "Alkalinity":
-            c = []
-            ok = True
-            for cp in comp:
-                a = Fr(0)
-                for el, nu in cp.items():
-                    if el in SKIP_ELEMS:
-                        continue
-                    st = STATE_OF.get(el, el)
-                    if st not in zalk:
-                        st = el          # databases without redox states (pitzer.dat)
-                    if st not in zalk:
-                        ok = False
-                        break
-                    z, al = zalk[st]
-                    a += nu * (z + al)
-                c.append(a)
-            if not ok:
-                continue
+            c = [cs[3] for cs in colspec]
         else:
             c = [cp.get(b, Fr(0)) for cp in comp]
         rows.append({"elem": b, "states": states, "c": c})
     # water balance: moles of water of the mixed initial solutions + water released by the phases = water of the final solution.
-    # Water coefficient of a phase = O atoms of its formula minus the O atoms carried away by the master species of its elements
-    # (specification; e.g. CaSO4:2H2O -> 6 - 4 = 2, CO2 -> 2 - 3 = -1).
-    try:
-        o_master = {}
-        for e in p["elts"]:
-            sp = re.sub(r"[+-]\d*(\.\d+)?$", "", e.get("species", ""))
-            o_master[e["name"]] = parse_formula(sp).get("O", Fr(0)) if sp and sp != "e" else Fr(0)
-        wc = []
-        for cp in comp:
-            w = cp.get("O", Fr(0))
-            for el, nu in cp.items():
-                if el in SKIP_ELEMS:
-                    continue
-                w -= nu * o_master[STATE_OF.get(el, el) if STATE_OF.get(el, el) in o_master else el]
-            wc.append(w if p["mineral_water"] else Fr(0))
-        gfw = H(p["gfw_water"])
-        Tw = [H(sol["mass_water"]) / gfw for sol in p["solns"]]
-        rows.append({"elem": "H2O(water)", "states": [{"j": None, "name": "water", "T": Tw, "bound": None, "unc": []}], "c": wc, "water": True})
-    except (KeyError, ValueError):
-        pass
+    gfw = H(p["gfw_water"])
+    Tw = [H(sol["mass_water"]) / gfw for sol in p["solns"]]
+    wc = [cs[0] if p["mineral_water"] else Fr(0) for cs in colspec]
+    rows.append({"elem": "H2O(water)", "states": [{"j": None, "name": "water", "T": Tw, "bound": None, "unc": []}], "c": wc, "water": True})
+    # electron balance: with reference oxidation numbers ox_ref (H +1, O -2, every other element: the oxidation number of its first
+    # valence row) a neutral phase carries  el(p) = sum_E ox_ref(E) n_E  electrons more than its atoms in their reference states, an
+    # aqueous atom on valence row j carries  ox_ref(E) - ox_j.  Conservation:  sum_s sg_s sum_j w_j (f_s T_js + eps_js) + sum_p t_p el(p) = 0.
+    # Entirely from the phase FORMULAS and the database's master species; it is what pins the transfers of O2(g), H2(g) (H and O
+    # have no element balance) and the valence-state bookkeeping of every redox phase.
+    ox_ref = {"H": OX_REF_H, "O": OX_REF_O}
+    for j in sorted(info):
+        ox_ref.setdefault(info[j]["elem"], info[j]["ox"])
+    w = {j: ox_ref[inf["elem"]] - inf["ox"] for j, inf in info.items()}
+    wj = {j: x for j, x in w.items() if x != 0}
+    if wj:
+        W = sum(abs(x) for x in wj.values())
+        est = []
+        for j, x in sorted(wj.items()):
+            e = p["elts"][j]
+            T = [H(p["solns"][s]["totals"].get(e["name"], "0x0p+0")) for s in range(ns)]
+            Ud = [Fr(float(expected_unc(decl, e["name"], s, ns))) for s in range(ns)] if decl else [H(u) for u in e["unc"]]
+            bnd = [(u * abs(T[s])) if u > 0 else -u for s, u in enumerate(Ud)]
+            est.append({"j": j, "name": e["name"], "T": [x / W * t for t in T], "bound": [abs(x) / W * b_ for b_ in bnd], "unc": [], "scale": x / W})
+        try:
+            ec = [sum(ox_ref[el] * nu for el, nu in cp.items()) / W for cp in comp]
+            rows.append({"elem": "electrons", "states": est, "c": ec, "electron": True})
+        except KeyError:
+            pass
     # every element of a phase must be balanced somewhere (otherwise the phase could create mass)
-    balanced = set(r_["elem"] for r_ in rows if not r_.get("water"))
+    balanced = set(r_["elem"] for r_ in rows if not r_.get("water") and not r_.get("electron"))
     for ph, cp in zip(p["phases"], comp):
         for el in cp:
             if el not in SKIP_ELEMS and el not in balanced:
@@ -562,7 +773,8 @@ def build_problem(r, meta=None, text=None):
     return {"ns": ns, "nph": nph, "toler": toler, "sgn": sgn, "rows": rows, "cons": cons, "lay": lay, "p": p,
             "range": bool(p["range"]), "minimal": bool(p["minimal"]),
             "ph_unc": ([Fr(float(decl["ph"][min(i_, len(decl["ph"]) - 1)])) for i_ in range(ns)] if decl else [H(s["ph_unc"]) for s in p["solns"]]),
-            "ph_unc_engine": [H(s["ph_unc"]) for s in p["solns"]], "decl": decl, "carbon": bool(p["carbon"]), "water_unc": H(p["water_uncertainty"])}
+            "ph_unc_engine": [H(s["ph_unc"]) for s in p["solns"]], "decl": decl, "info": info, "colspec": colspec, "redox_cols": redox_cols, "comp": comp, "_rows": A,
+            "_delta": [H(v) for v in p["delta"]], "alk_e": alk_e, "e_row": erow_[0] if erow_ else None, "carbon": bool(p["carbon"]), "water_unc": H(p["water_uncertainty"])}
 
 
 def model_terms(pb, m):
@@ -585,12 +797,19 @@ def model_terms(pb, m):
             b = [Fr(0)] * ns
             e[k] = ew / pb["sgn"][k]
             b[k] = pb["water_unc"] / fr_[k] if fr_[k] > 0 else Fr(0)
-            rows.append({"elem": r_["elem"], "states": [{"T": r_["states"][0]["T"], "e": e, "b": b, "name": "water"}], "c": r_["c"], "water": True})
+            kw = sum(t_ * rc["water"] for t_, rc in zip(redox, pb["redox_cols"]))
+            rows.append({"elem": r_["elem"], "states": [{"T": r_["states"][0]["T"], "e": e, "b": b, "name": "water"}], "c": r_["c"], "water": True, "k": kw})
             continue
         for st in r_["states"]:
-            e = [x[lay["col_epsilon"] + st["j"] * ns + s] for s in range(ns)]
+            e = [x[lay["col_epsilon"] + st["j"] * ns + s] * st.get("scale", 1) for s in range(ns)]
             sts.append({"T": st["T"], "e": e, "b": st["bound"], "name": st["name"]})
-        rows.append({"elem": r_["elem"], "states": sts, "c": r_["c"]})
+        if r_.get("electron"):
+            kk = Fr(0)
+        elif r_["elem"] == "Alkalinity":
+            kk = sum(t_ * rc["Alkalinity"] for t_, rc in zip(redox, pb["redox_cols"]))
+        else:
+            kk = sum(t_ * rc["elem"].get(r_["elem"], Fr(0)) for t_, rc in zip(redox, pb["redox_cols"]))
+        rows.append(dict({"elem": r_["elem"], "states": sts, "c": r_["c"], "k": kk}, **({"electron": True} if r_.get("electron") else {})))
     extra = []
     if pb["carbon"]:
         extra.append({"T": [Fr(0)] * ns, "e": [x[lay["col_ph"] + s] for s in range(ns)], "b": pb["ph_unc"], "name": "pH"})
@@ -606,7 +825,8 @@ def tolerances(pb):
     the same amount (cl1.cpp, 'Check calculation'); toler is the run's -tolerance.  An element balance is the sum of its valence-state
     rows, hence the factor max(number of states)."""
     t = pb["toler"]
-    ms = max([len(r_["states"]) for r_ in pb["rows"]] or [1])
+    # (the electron row is a weighted sum, weights scaled to sum 1, of valence rows plus the E row)
+    ms = max([len(r_["states"]) for r_ in pb["rows"] if not r_.get("electron")] + [2])
     return {"tolb": 10 * t * ms, "tolu": 10 * t, "tolr": Fr(1, 10**6)}
 
 
@@ -618,7 +838,7 @@ def py_residuals(pb, mt):
         for st in r_["states"]:
             for s in range(pb["ns"]):
                 tot += pb["sgn"][s] * (mt["fr"][s] * st["T"][s] + st["e"][s])
-        tot += sum(t * c for t, c in zip(mt["tr"], r_["c"]))
+        tot += sum(t * c for t, c in zip(mt["tr"], r_["c"])) + r_.get("k", 0)
         out[r_["elem"]] = tot
     return out
 
@@ -674,20 +894,46 @@ def setup_violations(pb):
 
     def close(a, b):
         return abs(a - b) <= Fr(1, 10**12) * max(abs(a), abs(b)) + Fr(1, 10**30)
+
+    def closec(a, b):
+        # entries of a column are doubles such as 0.165 * 2: one part in 1e12 of the largest stoichiometric number involved
+        return abs(a - b) <= Fr(1, 10**12) * max(abs(a), abs(b), 1)
+    info = pb["info"]
+    # every phase column and every redox column must be a BALANCED reaction: atoms of each element = formula (0 for a redox
+    # reaction), water / electron / alkalinity entries = what O, H and charge balance of the formula require
+    alk_row = [p["elts"][j]["row"] for j in range(len(p["elts"])) if p["elts"][j]["name"] == "Alkalinity"]
+    cols = [(lay["col_phases"] + i, "phase " + p["phases"][i]["name"], pb["comp"][i]) for i in range(nph)]
+    cols += [(c_, "redox reaction " + p["col_name"][c_], {}) for c_ in range(lay["col_redox"], lay["col_epsilon"])]
+    for col, what, formula in cols:
+        a = {j: A.get(inf["row"], {}).get(col, Fr(0)) for j, inf in info.items()}
+        for el in sorted(set(inf["elem"] for inf in info.values()) | set(formula)):
+            if el in SKIP_ELEMS:
+                continue
+            tot = sum(a[j] for j, inf in info.items() if inf["elem"] == el)
+            if not closec(tot, formula.get(el, Fr(0))):
+                bad.append("%s: %.6g atoms of %s on its valence rows, the formula has %.6g" % (what, float(tot), el, float(formula.get(el, 0))))
+        nu_w, nu_h, nu_e, alk = balanced_reaction(formula, a, info, pb["alk_e"])
+        if pb["e_row"] is not None:
+            got = A.get(pb["e_row"], {}).get(col, Fr(0))
+            if not closec(got, nu_e):
+                bad.append("%s: electron entry %.6g, O/H/charge balance of the formula with these valence rows requires %.6g" % (what, float(got), float(nu_e)))
+        gotw = A.get(lay["row_water"], {}).get(col, Fr(0))
+        wantw = nu_w if p["mineral_water"] else Fr(0)
+        if not closec(gotw, wantw):
+            bad.append("%s: water entry %.6g, O balance of the formula requires %.6g" % (what, float(gotw), float(wantw)))
+        if alk_row:
+            gota = A.get(alk_row[0], {}).get(col, Fr(0))
+            if not closec(gota, alk):
+                bad.append("%s: alkalinity entry %.6g, the balanced reaction gives %.6g" % (what, float(gota), float(alk)))
     for r_ in pb["rows"]:
+        if r_.get("electron"):
+            continue
         if r_.get("water"):
             row = A.get(lay["row_water"], {})
             for s in range(ns):
                 if not close(row.get(s, Fr(0)), pb["sgn"][s] * r_["states"][0]["T"][s]):
                     bad.append("water row, solution %d: %.17g, specification %.17g" % (s, float(row.get(s, 0)), float(pb["sgn"][s] * r_["states"][0]["T"][s])))
-            for i in range(nph):
-                if not close(row.get(lay["col_phases"] + i, Fr(0)), r_["c"][i]):
-                    bad.append("water row, phase %s: %.6g, specification %.6g" % (p["phases"][i]["name"], float(row.get(lay["col_phases"] + i, 0)), float(r_["c"][i])))
             continue
-        for i in range(nph):
-            tot = sum(A.get(p["elts"][st["j"]]["row"], {}).get(lay["col_phases"] + i, Fr(0)) for st in r_["states"])
-            if not close(tot, r_["c"][i]):
-                bad.append("row %s, phase %s: coefficient %.6g, specification %.6g" % (r_["elem"], p["phases"][i]["name"], float(tot), float(r_["c"][i])))
         for st in r_["states"]:
             row = A.get(p["elts"][st["j"]]["row"], {})
             for s in range(ns):
@@ -708,7 +954,7 @@ def setup_violations(pb):
     # uncertainty inequalities  eps <= b f ,  -eps <= b' f  with b' <= b
     bounds = {}
     for r_ in pb["rows"]:
-        if r_.get("water"):
+        if r_.get("water") or r_.get("electron"):
             continue
         for st in r_["states"]:
             for s in range(ns):
@@ -757,7 +1003,7 @@ def coq_problem(pb, tol):
 
 
 def coq_model(mt):
-    rows = "; ".join("{| e_states := [%s]; e_c := %s |}" % ("; ".join(coq_vrow(st) for st in r_["states"]), qlist(r_["c"]))
+    rows = "; ".join("{| e_states := [%s]; e_c := %s; e_k := %s |}" % ("; ".join(coq_vrow(st) for st in r_["states"]), qlist(r_["c"]), qstr(r_.get("k", 0)))
                      for r_ in mt["rows"])
     extra = "; ".join(coq_vrow(st) for st in mt["extra"])
     rng = lambda l: "[" + "; ".join("(%s, %s)" % (qstr(a), qstr(b)) for a, b in l) + "]"
@@ -862,7 +1108,7 @@ def check_printed(pb, m, mt, text):
             if m2:
                 tab[m2.group(1)] = m2.groups()[1:]
         for r_ in mt["rows"]:
-            if r_.get("water"):
+            if r_.get("water") or r_.get("electron"):
                 continue
             for st in r_["states"]:
                 nm = st["name"][:15]
@@ -1139,7 +1385,7 @@ def analyse(ctx, cases, res, stats):
         me = c.get("meta")
         if pb["decl"]:
             for r_ in pb["rows"]:
-                if r_.get("water"):
+                if r_.get("water") or r_.get("electron"):
                     continue
                 for st in r_["states"]:
                     for s in range(pb["ns"]):
